@@ -1,0 +1,54 @@
+//go:build verif
+
+// Contracts for the deductive verifier in /verif (govc). Comment-only file,
+// compiled only with -tags verif.
+
+package tenant
+
+// ---------------------------------------------------------------------------
+// C23: the access decision
+// ---------------------------------------------------------------------------
+
+// The environment is abstract: whether enforcement is on, whether a context is
+// the internal system context, whether it carries a tenant and which one.
+//@ abstract func enforce() bool
+//@ abstract func isSystem(ctx context.Context) bool
+//@ abstract func hasTenant(ctx context.Context) bool
+//@ abstract func tenantOf(ctx context.Context) int
+//@ abstract func idOf(t *tenanttype.Tenant) int
+
+//@ func tenant.enforceTenant
+//@   trusted
+//@   ensures result == enforce()
+//@   assigns nothing
+
+//@ func systemtenant.Is
+//@   trusted
+//@   ensures result == isSystem(ctx)
+//@   assigns nothing
+
+// ErrMissingTenant is initialised at package init and never reassigned.
+//@ func tenant.FromContext
+//@   requires ErrMissingTenant != nil
+//@   ensures (result1 == nil) == hasTenant(ctx)
+//@   ensures result1 == nil ==> result0 != nil && idOf(result0) == tenantOf(ctx)
+//@   assigns nothing
+
+//@ func tenanttype.GetTenant
+//@   trusted
+//@   ensures result1 == hasTenant(ctx)
+//@   ensures result1 ==> result0 != nil && idOf(result0) == tenantOf(ctx)
+//@   assigns nothing
+
+//@ func tenanttype.(*Tenant).ID
+//@   trusted
+//@   ensures result == idOf(t)
+//@   assigns nothing
+
+// With enforcement on: access iff the context is the system context, or it
+// carries a tenant and that tenant owns the repository. A request without a
+// tenant sees no tenant-owned repository. Nothing is written.
+//@ func tenant.HasAccess
+//@   requires ErrMissingTenant != nil
+//@   ensures result == (!enforce() || isSystem(ctx) || (hasTenant(ctx) && tenantOf(ctx) == id))
+//@   assigns nothing
